@@ -4,6 +4,62 @@ from . import disp_common
 TRUSTED_BASE = disp_common.TRUSTED_BASE
 ASSUMPTIONS = disp_common.ASSUMPTIONS
 RULE = disp_common.RULE
+def gen_close_outstanding(rng, n):
+    """Closed loop: the application lets go (shutdown / both halves dropped) while data is still unacknowledged, so
+    that data and FIN are outstanding together; the peer then acknowledges in one cumulative ACK (or data first,
+    then the FIN; or not at all) and goes silent, answers with its own FIN, or keeps sending.  C08-a lived here
+    (one ACK covering data and FIN left the task parked without any timer)."""
+    import checklib as L
+    from . import vsockgen
+    cases = []
+    for i in range(n):
+        r = rng.fork("co%d" % i)
+        cfg = vsockgen.gen_config(r, kind="out")
+        cfg[4] = 32768; cfg[5] = 1048576; cfg[7] = 5; cfg[14] = 1048576
+        cfg[8] = r.choice([10_000_000_000, 1_000_000_000, 60_000_000_000])
+        st = {"ts": 1, "now": cfg[16], "plus1": r.below(3) == 0}
+        ops = ["P", f"W{r.choice([100, 528, 1056, 3000])},0"]
+        if r.below(2):
+            ops.append("P")
+        ops += r.choice([["H"], ["DW", "DR"], ["DR", "DW"], ["H", "DR"]])
+        ops.append("P")
+        cases.append((cfg, ops, st, r))
+    lines = ["vsock " + " ".join(str(x) for x in cfg) + " " + " ".join(ops) for cfg, ops, _, _ in cases]
+    outs = L.run_sharded(L.HARNESS, lines)
+    res = []
+    for (cfg, ops, st, r), out in zip(cases, outs):
+        polls = [t for t in out.split() if t.startswith("P:")]
+        if not polls or polls[-1].count("/") < 4 or not polls[-1].startswith("P:PEND"):
+            res.append("vsock " + " ".join(str(x) for x in cfg) + " " + " ".join(ops))
+            continue
+        core = polls[-1].split("/")[4].split("|")[0].split(",")
+        state, fin = int(core[0]), int(core[1])
+        seq_nr = int(core[3])
+
+        def ack(nr, t=2):
+            st["ts"] += r.range(1, 5000)
+            # seq_nr = last_consumed (a peer that numbers its pure ACKs with the last data number it used) keeps
+            # the connection in FinWait2; seq_nr = last_consumed + 1 reads as "the peer has nothing more"
+            seq = cfg[12] if (t == 1 or st["plus1"]) else (cfg[12] - 1) % 65536
+            return f"M{t},{seq},{nr % 65536},1048576,{st['ts']},0,0,-"
+
+        top = fin if state == 3 else (seq_nr - 1) % 65536
+        how = r.choice(["one_ack", "one_ack", "data_then_fin", "data_only", "none", "peer_fin"])
+        if how == "one_ack":
+            ops += [ack(top), "P"]
+        elif how == "data_then_fin":
+            ops += [ack(top - 1), "P", ack(top), "P"]
+        elif how == "data_only":
+            ops += [ack(top - 1), "P"]
+        elif how == "peer_fin":
+            ops += [ack(top), "P", ack(top, t=1), "P"]
+        for _ in range(r.range(1, 4)):
+            st["now"] += r.choice([40_000_000, 500_000_000, 1_000_000_000, 3_000_000_000, 11_000_000_000])
+            ops += [f"T{st['now']}", "P"]
+        res.append("vsock " + " ".join(str(x) for x in cfg) + " " + " ".join(ops))
+    return res
+
+
 def _vsock_component():
     # connection level: once our FIN is out the connection keeps a deadline armed (c08_deadline_ok) and the M3
     # model agrees with the real VirtualSocket on closing scenarios (shared generators + the FIN/RESET/drop
@@ -11,8 +67,15 @@ def _vsock_component():
     from . import vsock_common, c17
     c = vsock_common.component("c08_deadline_ok", name="vsock_deadline")
     if hasattr(c17, "gen"):
-        c["gen"] = c17.gen
+        c["gen"] = lambda rng, tier: c17.gen(rng, tier) + gen_close_outstanding(
+            rng.fork("close_outstanding"), 150 if tier == "quick" else 3000)
     return c
 
 
-COMPONENTS = [disp_common.component("c12", name="disp"), _vsock_component()]
+def _vdrop_component():
+    # cancellation: the connection future dropped in mid-flight; every half then reports errors, nothing parks
+    from . import c03
+    return dict(c03.VDROP)
+
+
+COMPONENTS = [disp_common.component("c12", name="disp"), _vsock_component(), _vdrop_component()]
